@@ -1442,7 +1442,14 @@ def oracle_c15(ctx, focus):
     for key in list(ctx._cache.keys()):
         if key.startswith("scan_") or key == "script":
             sreqs, simpl, _ = ctx._cache[key]
-            pool.append((sreqs, simpl))
+            keep = [k for k, r in enumerate(sreqs) if not r.startswith("scanp\t")]   # default-hint twins: different answer format
+            pool.append(([sreqs[k] for k in keep], [simpl[k] for k in keep]))
+            # the twins: a token type with the trait's default hint methods = the same stream with every hint cleared
+            for k, r in enumerate(sreqs):
+                if r.startswith("scanp\t") and simpl[k] != "PANIC":
+                    batch, lazy = simpl[k].split("|")[0], simpl[k].split("|")[1]
+                    if batch != lazy:
+                        failures.append(fail(r.split("\t")[3][:300], "iterator yields %s" % lazy, "batch %s" % batch, [r], what="iter-vs-batch-default-hints"))
     # all recognised numbers (threshold-independent): re-run the same token streams at threshold 0
     extra_reqs, owner = [], []
     for pi, (sreqs, simpl) in enumerate(pool):
